@@ -111,8 +111,9 @@ PROPS = {
     "C04": {
         "engine": "dbsim", "level": "exploration", "budget": {"quick": 25, "thorough": 600},
         "title": "Transaction commit is atomic with strictly increasing commit versions",
-        "technique": "deterministic simulation (same engine as C05) with small MaxBatchCount (too-big errors), discards and conflicts: commit versions unique and real-time ordered; final all-version dump equals exactly the union of the writes of successful commits at their commit versions",
-        "rule": "as C05 plus MaxBatchCount in {default,3,4}; after the run the all-version dump of the default column family must contain every write of every successful commit at that commit's version and nothing else (a stored entry of a commit that reported conflict/too-big/blocked, or of a discarded transaction, is the violation); distinct/non-trivial as C05",
+        "failstop_ok": True,  # the engine's panic on a fatal disk error ends the process: no commit returned nil
+        "technique": "deterministic simulation (same engine as C05) with small MaxBatchCount (too-big errors), discards and conflicts, and in one run of three an injected disk error (one WAL file write fails once, WAL write buffer shrunk to 16-256 bytes so that the apply step of a single request of a commit batch meets it): commit versions unique and real-time ordered; final all-version dump equals exactly the union of the writes of successful commits at their commit versions",
+        "rule": "as C05 plus MaxBatchCount in {default,3,4}; after the run the all-version dump of the default column family must contain every write of every successful commit at that commit's version and nothing else (a stored entry of a commit that reported conflict/too-big/blocked, or of a discarded transaction, is the violation; narrow relaxation: what became of the writes of a commit that reported the injected disk error is not judged, everything acknowledged with nil is); distinct/non-trivial as C05",
         "level_text": "Seeded search over interleavings; oracle = exact accounting of stored versions against acknowledged commits.",
         "note": "Trusted: as C05; the dump through NewInternalIterator + exact-version point reads.",
         "design_ref": "7/C04", "assumptions": E1_ASSUME + ["client tasks and engine workers are released one at a time at yield sites: oracle timestamps (readTs/newCommitTs/doneCommit), watermark Begin/Done/advance/rebuild, commit worker stages, request enqueue/ack, and harness-level call boundaries; return events are stamped when the task is next scheduled (intervals can only widen)"],
@@ -132,7 +133,7 @@ PROPS = {
         # alone twice; if it stalls both times it is reported as a violation (class hang), not as harness trouble
         "hang": {"watchdog": 30, "confirm": 2},
         "title": "Operations and Close always finish",
-        "technique": "deterministic simulation, bounded liveness: plain operations and transactions from 2-4 tasks with L0 throttle toggles, a tiny commit queue, a shrunk watermark window, and Close issued by one task while the others are mid-operation (operations continue after the close); after the fault phase the scheduler drains fairly with simulated time advancing and every call must have returned",
+        "technique": "deterministic simulation, bounded liveness: plain operations and transactions from 2-4 tasks with L0 throttle toggles, a tiny commit queue, a shrunk watermark window, and Close issued by one task while the others are mid-operation (operations continue after the close); disk-error variant: one WAL file write (tiny WAL buffer) or the growing of a value-log segment after a first life and a clean reopen fails once; after the fault phase the scheduler drains fairly with simulated time advancing and every call must have returned",
         "rule": "case as C34 plus transactions, commit-queue capacity 2, watermark window 4, optional racing Close; oracle: every call returns (value or error, never a panic) within 8000 scheduling steps / 4 simulated seconds after the last fault, Close returns; a run ending with a call still blocked and nothing enabled is the violation (with the blocked tasks and their last sites); distinct/non-trivial as C34",
         "level_text": "Seeded search over interleavings with a bounded-liveness oracle (progress within a step/time budget once faults stop).",
         "note": "Trusted: the step and time budgets are generous (two orders of magnitude above observed completion); synctest quiescence detection.",
